@@ -16,7 +16,7 @@ import (
 // C20 — hashed file-tree paths keep the parent/child relation; a trailing slash is neutral.
 
 // "\u00e9" and "e\u0301" render alike but are different byte strings: different folder names
-var c20Sigma = []string{"", "a", "b", "ab", "\u00e9", "e\u0301", " ", "s", "home", ".", "..", "a%20b", "100%", strings.Repeat("x", 300)}
+var c20Sigma = []string{"", "a", "b", "ab", "\u00e9", "e\u0301", " ", "s", "home", ".", "..", "a%20b", "100%", hexsha("x"), strings.Repeat("x", 300)} // hexsha("x"): a segment that looks like a sha256 digest
 
 func c20Canon(segs []string) []string {
 	if len(segs) > 1 && segs[len(segs)-1] == "" {
